@@ -75,6 +75,13 @@ def gen(tier, seed):
             case["pre"] = pts_json([[F(rnd.randint(-32, 32), 8) for _ in range(len(x))] for _ in P])
             case["elevate"] = False
             case["mode"] = mode + "+moved"
+        elif r < 0.49 and mode != "thin":
+            # geometry far from the origin with small pieces (steps of 1/8 .. 8 around (2^20, -2^19, ..)): sizes are absolute
+            off = [F(2 ** 20), F(-2 ** 19), F(2 ** 21)][:len(x)]
+            case["P"] = pts_json([[v + o for v, o in zip(pt, off)] for pt in P])
+            case["x"] = fsl([v + o for v, o in zip(x, off)])
+            case["elevate"] = False
+            case["mode"] = mode + "+far-geometry"
         elif r < 0.52:
             # slow parametrisation: knot spans tens of thousands of times longer than the pieces (|C'|^2 of about 1e-9)
             sc = rnd.choice((50000, 200000))
